@@ -44,6 +44,7 @@ let wire_of_param (p : svcparam) : int * n list =
   | PIp6hint l -> (6, List.concat (List.map (fun g -> List.concat (List.map be16 g)) l)) | PDohpath b -> (7, b)
   | POhttp -> (8, []) | PGroups l -> (9, List.concat (List.map be16 l)) | PUnknown (k, b) -> (int_of_n k, b)
 let handle = function
+  | ["n3len"; w; h] -> show_o (fun x -> string_of_int (int_of_n x)) (c06_n3len (n_of_int (int_of_string w)) (bytes_of_hex h))
   | ["svcshow"; k; h] -> hx (c06_svcshow (param_of_wire (int_of_string k) (bytes_of_hex h)))
   | ["svcread"; h] -> show_o (fun p -> let (k, v) = wire_of_param p in string_of_int k ^ " " ^ hx v) (c06_svcread (bytes_of_hex h))
   | ["label"; h] -> hx (c06_show_label (bytes_of_hex h))
